@@ -157,7 +157,10 @@ func (server *Server) registerCoreExecutors() {
 		if err != nil {
 			return nil, err
 		}
-		ttlTime := time.Unix(int64(ttl), 0)
+		ttlTime, err := newExpireTime(cmd, "ttl", ttl)
+		if err != nil {
+			return nil, err
+		}
 		opt, err := nextExpireArgument(cmd, ttlTime, args)
 		if err != nil {
 			return nil, err
